@@ -240,6 +240,8 @@ class _HostDriver:
         self.log = []
         self.packets = []          # list of byte lists, filled from prev outputs
         self.cur = None
+        self.txr = 0
+        self.pid_wait = 0
         self.taken = 0
         self.total = 0             # set by the caller: number of bytes the words serialise to
 
@@ -266,30 +268,45 @@ class _HostDriver:
                 upd["valid"] = 0
         else:
             upd["valid"] = 0
-        # ---- host
+        # ---- host: the data-packet generator model keeps tx.ready low while the PID goes out (2 cycles)
         if prev is not None and self.hstate in ("rfr-sent", "response"):
             if prev.tx_valid:
+                self.idle_naks = 0
                 if self.cur is None:
                     self.cur = []
-                # a ZLP is valid & last without first and without earlier bytes: nothing appended
-                if self.cur or prev.tx_first or not prev.tx_last:
-                    self.cur.append(prev.tx_payload)
-                self.idle_naks = 0
-                if prev.tx_last:
-                    self.packets.append(self.cur)
-                    self.cur = None
-                    self.hstate = "ack-wait"
-                    self.hcount = 2
-                    self.saw_data = True
+                    if prev.tx_last and not prev.tx_first:       # ZLP: last without first, nothing consumed
+                        self.packets.append([])
+                        self.cur = None
+                        self.hstate = "ack-wait"
+                        self.hcount = 2
+                    else:
+                        self.pid_wait = 2
+                if self.cur is not None:
+                    if self.txr:                                  # byte consumed in the previous cycle
+                        self.cur.append(prev.tx_payload)
+                        if prev.tx_last:
+                            self.packets.append(self.cur)
+                            self.cur = None
+                            self.hstate = "ack-wait"
+                            self.hcount = 2
             elif prev.nak and self.hstate == "rfr-sent":
                 self.hstate = "gap"
                 self.pi += 1
                 self.hcount = self.polls[self.pi % len(self.polls)]
                 if self.i >= len(self.words) and self.taken >= self.total:
                     self.idle_naks += 1
+        if self.cur is not None:
+            if self.pid_wait > 0:
+                self.pid_wait -= 1
+                self.txr = 0
+            else:
+                self.txr = 1
+        else:
+            self.txr = 0
+        upd["tx_ready"] = self.txr
         if self.hstate == "rfr-sent":
             self.hstate = "response"
-            self.hcount = MPS + 6
+            self.hcount = MPS + 10
         if self.hstate == "gap":
             if self.hcount > 0:
                 self.hcount -= 1
@@ -324,7 +341,7 @@ class _HostDriver:
 
 class MultibyteRealSub(Sub):
     name = "multibyte-real-inner"
-    budget = {"quick": 700, "thorough": 10000}
+    budget = {"quick": 1500, "thorough": 15000}
     rule = ("USBMultibyteStreamInEndpoint(byte_width 1..8, max_packet_size 8) with the REAL inner USBStreamInEndpoint "
             "(spied, not replaced): words from a valid-hold producer (the final word carries last), a host polling with "
             "IN tokens at generated intervals and ACKing every packet; oracle: (a) the same per-byte oracle as the stub "
